@@ -12,9 +12,9 @@ import (
 
 // Obligation is one decided rule instance.
 type Obligation struct {
-	Rule   string `json:"rule"`   // e.g. C03.R1
-	Where  string `json:"where"`  // function / table / field the instance is about
-	What   string `json:"what"`   // the clause, in the notation of DESIGN.md
+	Rule   string `json:"rule"`  // e.g. C03.R1
+	Where  string `json:"where"` // function / table / field the instance is about
+	What   string `json:"what"`  // the clause, in the notation of DESIGN.md
 	OK     bool   `json:"ok"`
 	Pos    string `json:"pos,omitempty"`    // file:line of the offending (or witnessing) construct
 	Detail string `json:"detail,omitempty"` // witness path / explanation
@@ -564,7 +564,6 @@ func SortedKeys[V any](m map[string]V) []string {
 	sort.Strings(ks)
 	return ks
 }
-
 
 // ---- assumptions (single-condition path sensitivity) ----
 
